@@ -46,6 +46,15 @@ fn can_append_to(atom: &Atom) -> bool {
     }
 }
 
+/// Whether an atom parsed with smart normalization still normalizes the haystack:
+/// normalization stays on exactly as long as no character of the atom's text is one
+/// that normalization would change.
+fn normalizes(atom: &Atom) -> bool {
+    atom.needle_text()
+        .chars()
+        .all(|c| nucleo_matcher::chars::normalize(c) == c)
+}
+
 impl MultiPattern {
     /// Creates a multi pattern with `columns` empty column patterns.
     pub fn new(columns: usize) -> Self {
@@ -79,9 +88,26 @@ impl MultiPattern {
         } else {
             self.cols[column].1 = Status::Rescore;
         }
+        let old_last = self.cols[column].0.atoms.len().checked_sub(1);
+        let old_normalizes = self.cols[column].0.atoms.last().map(normalizes);
         self.cols[column]
             .0
             .reparse(new_text, case_matching, normalization);
+        // With smart normalization, appended text can switch normalization off for the
+        // last atom (its text now contains a character that normalization would change).
+        // The haystack is then compared without being normalized first, so items that
+        // did not match before can match now: the previous matches can not be reused.
+        if self.cols[column].1 == Status::Update
+            && matches!(normalization, Normalization::Smart)
+            && old_normalizes == Some(true)
+        {
+            let new_normalizes = old_last
+                .and_then(|i| self.cols[column].0.atoms.get(i))
+                .map(normalizes);
+            if new_normalizes == Some(false) {
+                self.cols[column].1 = Status::Rescore;
+            }
+        }
     }
 
     pub fn column_pattern(&self, column: usize) -> &Pattern {
